@@ -227,6 +227,8 @@ def bfs(ctx, part, tier, seed, s, ns):
                 part.n += 1
                 if r is None:
                     part.keys.add(core.h64(h2))
+                    if len(part.samples) < 2 and len(h2) > 1:
+                        part.samples.append({'sequence': [ALPHABET[i] for i in h2], 'state_digest': key})
                 elif r[0] == 'skip':
                     part.skips[r[1][:60]] += 1
                     continue
@@ -408,6 +410,8 @@ def shard(s, ns, tier, seed):
             part.traces += 1
             if r is None:
                 part.keys.add(core.h64((base, stores, load)))
+                if len(part.samples) < 4 and len(stores) > 1:
+                    part.samples.append({'stores (offset, bits)': [list(x) for x in stores], 'load': list(load), 'base': base})
                 part.outcomes.add(core.h64(geometry(stores, load)))
             else:
                 part.violation('storeload base=%s %s fail=%s' % (base, geometry(stores, load), r[0]),
@@ -437,8 +441,6 @@ def run(tier, seed):
     core.import_x86()
     encoded()
     part = core.run_sharded(shard, (tier, seed), nshards=len(QUICK_ALPHABET) if tier == 'quick' else len(ALPHABET))
-    part.samples = [{'sequence': ['mov DWORD PTR [esi], eax', 'mov BYTE PTR [esi+1], cl', 'mov eax, DWORD PTR [esi]']},
-                    {'stores': [[0, 32], [1, 8]], 'load': [0, 32], 'base': 'sym'}, {'rep': 'mov ecx,2; cld; rep stosb'}]
     rule = ('(1) BFS over instruction sequences: alphabet of %d instructions (quick: %d), depth %d, real emul_lines on a fresh x86_machine per history, '
             'canonical state = digest of dump_id()+dump_mem(), already-seen states are not expanded, failing states are not expanded; invariant per '
             'state: for 2 valuations of the initial symbols (bases 1 MiB apart) every general register, status flag and every read-back of 8/16/32 '
